@@ -37,244 +37,16 @@ def sub_store(s, base):
 
 # ------------------------------------------------------------------- R-NORM
 def r_norm(P, R):
+    """The normal form kept by find_or_add: decided by interpreting it
+    for every valid request on small managers (rules/models.py)."""
+    from . import models
+    n = models.find_or_add_model(
+        P, R, 'dd.mdd.MDD' if R.prop == 'C15' else 'dd.bdd.BDD')
     if R.prop == 'C15':
-        return norm_mdd(P, R)
-    f = P.func('dd.bdd.BDD.find_or_add')
-    fn = f.node
-    q = f.qualname
-    params = [p for p in f.params if p != 'self']
-    if len(params) != 3:
-        raise AnalysisError(f'{q} no longer takes (level, low, high)')
-    lv, lo, hi = params
-    plist = pa.function_paths(fn)
-    R.count('paths', len(plist))
-    n_ret = 0
-    problems = []
-    for path in plist:
-        if pa.exit_kind(path) != 'return':
-            continue
-        n_ret += 1
-        # symbolic values of the two children and of the sign factor
-        sym = {lo: lo, hi: hi}
-        factor = None
-        arm = None
-        saw_elim = False
-        key_var = None
-        key_val = None
-        looked_up = None
-        inserted_pred = None
-        inserted_succ = None
-        node_var = None
-        for it in path:
-            if it[0] == 'test':
-                t = it[1]
-                src = au.src(t).replace(' ', '')
-                if src in (f'{hi}<0', f'0>{hi}') and arm is None:
-                    arm = it[2]
-                elif src in (f'{hi}>0', f'0<{hi}', f'{hi}>=0') and \
-                        arm is None:
-                    arm = not it[2]
-                elif src in (f'{lo}=={hi}', f'{hi}=={lo}'):
-                    if arm is None:
-                        problems.append((
-                            'order', path, t,
-                            'the elimination test precedes the complement '
-                            'normalisation'))
-                    saw_elim = True
-            elif it[0] == 'stmt':
-                s = it[1]
-                if isinstance(s, ast.Assign) and len(s.targets) == 1:
-                    t, v = s.targets[0], s.value
-                    if isinstance(t, ast.Tuple) and isinstance(
-                            v, ast.Tuple) and len(t.elts) == len(v.elts):
-                        new = dict()
-                        for a, b in zip(t.elts, v.elts):
-                            if isinstance(a, ast.Name):
-                                new[a.id] = symval(b, sym)
-                        sym.update(new)
-                    elif isinstance(t, ast.Name):
-                        if au.const_int(v) in (1, -1) and t.id not in (
-                                lo, hi):
-                            factor = (t.id, au.const_int(v))
-                        elif isinstance(v, ast.Tuple) and len(
-                                v.elts) == 3:
-                            key_var = t.id
-                            key_val = tuple(symval(e, sym) for e in v.elts)
-                        elif isinstance(v, ast.Call) and au.call_name(
-                                v) == 'get' and au.chain(
-                                    v.func.value) == ['self', '_pred']:
-                            looked_up = au.src(v.args[0]) if v.args else None
-                            node_var = t.id
-                        else:
-                            sym[t.id] = symval(v, sym)
-                            if au.chain(v) == ['self', '_min_free']:
-                                node_var = t.id
-                    st = sub_store(s, '_pred')
-                    if st:
-                        inserted_pred = (au.src(st[0]), au.src(st[1]))
-                    st = sub_store(s, '_succ')
-                    if st:
-                        inserted_succ = (au.src(st[0]), au.src(st[1]))
-                if isinstance(s, ast.Return) and s.value is not None:
-                    if arm is None:
-                        problems.append((
-                            'no-normalisation', path, s,
-                            'a reference is returned on a path that never '
-                            f'tests the sign of the high child `{hi}`'))
-                        continue
-                    want = -1 if arm else 1
-                    if factor is None or factor[1] != want:
-                        problems.append((
-                            'factor', path, s,
-                            f'with `{hi}` '
-                            f'{"negative" if arm else "non-negative"} the '
-                            f'sign factor is {factor and factor[1]} '
-                            f'instead of {want}'))
-                    exp_lo = f'-{lo}' if arm else lo
-                    exp_hi = f'-{hi}' if arm else hi
-                    if sym.get(lo) != exp_lo or sym.get(hi) != exp_hi:
-                        problems.append((
-                            'children', path, s,
-                            f'with `{hi}` '
-                            f'{"negative" if arm else "non-negative"} the '
-                            f'children are ({sym.get(lo)}, {sym.get(hi)}) '
-                            f'instead of ({exp_lo}, {exp_hi})'))
-                    rv = s.value
-                    ok_mult = isinstance(rv, ast.BinOp) and isinstance(
-                        rv.op, ast.Mult) and factor is not None and any(
-                            au.is_name(x, factor[0])
-                            for x in (rv.left, rv.right))
-                    if not ok_mult:
-                        problems.append((
-                            'return', path, s,
-                            f'`{au.short(s)}` does not apply the sign '
-                            'factor of the normalisation'))
-                    if not saw_elim:
-                        problems.append((
-                            'elimination', path, s,
-                            'a node reference is returned without the '
-                            'elimination test (equal children)'))
-        if inserted_pred or inserted_succ:
-            if not (inserted_pred and inserted_succ):
-                problems.append((
-                    'insert', path, fn,
-                    'only one of _pred / _succ is written for a new node'))
-            else:
-                if inserted_pred[0] != inserted_succ[1] or \
-                        inserted_pred[1] != inserted_succ[0]:
-                    problems.append((
-                        'insert', path, fn,
-                        f'_pred[{inserted_pred[0]}] = {inserted_pred[1]} '
-                        f'and _succ[{inserted_succ[0]}] = '
-                        f'{inserted_succ[1]} are not inverse entries'))
-                if looked_up is None or inserted_pred[0] != looked_up:
-                    problems.append((
-                        'insert', path, fn,
-                        f'the inserted key `{inserted_pred[0]}` is not '
-                        f'the looked-up key `{looked_up}`'))
-                if key_val is not None:
-                    want_key = (lv, f'-{lo}' if arm else lo,
-                                f'-{hi}' if arm else hi)
-                    if key_val != want_key:
-                        problems.append((
-                            'key', path, fn,
-                            f'the unique-table key is {key_val}, expected '
-                            f'(level, low, high) = {want_key}'))
-    seen = set()
-    for kind, path, node, msg in problems:
-        if kind in seen:
-            continue
-        seen.add(kind)
-        R.violation('R-NORM', kind, q, kind, msg, unit=f.unit.rel,
-                    line=getattr(node, 'lineno', f.lineno),
-                    path=pa.describe(path))
-    if not problems:
-        R.holds('R-NORM', q,
-                f'{n_ret} return path(s): sign test on the high child, '
-                'children negated together with factor -1, elimination '
-                'test, lookup key == inserted key, inverse insert, factor '
-                'applied to every returned reference')
-    R.floor('R-NORM return paths of find_or_add', n_ret, 4)
+        models.mdd_cofactor_model(P, R)
+    if n is not None:
+        R.floor('R-NORM requests of find_or_add', n, 100)
 r_norm.NAME = 'R-NORM'
-
-
-def symval(e, sym):
-    if isinstance(e, ast.Name):
-        return sym.get(e.id, e.id)
-    if isinstance(e, ast.UnaryOp) and isinstance(e.op, ast.USub):
-        v = symval(e.operand, sym)
-        if isinstance(v, str) and v.startswith('-'):
-            return v[1:]
-        return f'-{v}'
-    return au.src(e)
-
-
-def norm_mdd(P, R):
-    f = P.func('dd.mdd.MDD.find_or_add')
-    fn = f.node
-    q = f.qualname
-    plist = pa.function_paths(fn)
-    n_ret = 0
-    problems = []
-    for path in plist:
-        if pa.exit_kind(path) != 'return':
-            continue
-        n_ret += 1
-        arm = None
-        factor = None
-        negated = False
-        for it in path:
-            if it[0] == 'test':
-                src = au.src(it[1]).replace(' ', '')
-                if src == 'nodes[0]<0' and arm is None:
-                    arm = it[2]
-            elif it[0] == 'stmt':
-                s = it[1]
-                if isinstance(s, ast.Assign) and len(s.targets) == 1 and \
-                        isinstance(s.targets[0], ast.Name):
-                    t, v = s.targets[0].id, s.value
-                    if au.const_int(v) in (1, -1):
-                        factor = (t, au.const_int(v))
-                    if t == 'nodes' and isinstance(v, ast.Call) and any(
-                            isinstance(g, ast.GeneratorExp) and isinstance(
-                                g.elt, ast.UnaryOp) and isinstance(
-                                    g.elt.op, ast.USub)
-                            for g in v.args):
-                        negated = True
-                if isinstance(s, ast.Return) and s.value is not None:
-                    if arm is None:
-                        problems.append((
-                            'no-normalisation', path, s,
-                            'no test of the sign of the first edge'))
-                        continue
-                    want = -1 if arm else 1
-                    if factor is None or factor[1] != want or (
-                            negated != arm):
-                        problems.append((
-                            'factor', path, s,
-                            'sign factor / negation of the successors do '
-                            'not match the sign of the first edge'))
-                    rv = s.value
-                    if not (isinstance(rv, ast.BinOp) and isinstance(
-                            rv.op, ast.Mult) and factor and any(
-                                au.is_name(x, factor[0])
-                                for x in (rv.left, rv.right))):
-                        problems.append((
-                            'return', path, s,
-                            f'`{au.short(s)}` does not apply the sign '
-                            'factor'))
-    seen = set()
-    for kind, path, node, msg in problems:
-        if kind in seen:
-            continue
-        seen.add(kind)
-        R.violation('R-NORM', kind, q, kind, msg, unit=f.unit.rel,
-                    line=getattr(node, 'lineno', f.lineno),
-                    path=pa.describe(path))
-    if not problems:
-        R.holds('R-NORM', q, f'{n_ret} return path(s): first edge regular, '
-                'factor applied')
-    R.floor('R-NORM return paths of MDD.find_or_add', n_ret, 3)
 
 
 # ------------------------------------------------------------------ R-PAIR(a)
@@ -323,66 +95,10 @@ def arg_names(calls):
 
 
 def pair_find_or_add(P, R, q):
-    f = P.func(q)
-    fn = f.node
-    plist = pa.function_paths(fn)
-    n = 0
-    for path in plist:
-        store = None
-        for it in path:
-            if it[0] == 'stmt' and sub_store(it[1], '_succ'):
-                store = it[1]
-        if store is None:
-            continue
-        n += 1
-        key, val = sub_store(store, '_succ')
-        # children = the elements of the stored tuple after the level
-        tup = val
-        if isinstance(val, ast.Name):
-            defs = [s for s in stmt_items(path) if isinstance(s, ast.Assign)
-                    and au.is_name(s.targets[0], val.id)]
-            tup = defs[-1].value if defs else None
-        if not isinstance(tup, ast.Tuple):
-            R.undecided('R-PAIR', q, 'stored triple', 'unrecognised')
-            continue
-        kids = tup.elts[1:]
-        incs = calls_on_path(path, 'incref', after=store)
-        got = arg_names(incs)
-        starred = any(isinstance(k, ast.Starred) for k in kids)
-        if starred:
-            # MDD: for v in nodes: self.incref(v)
-            loops = [it[1] for it in path if it[0] == 'loop'
-                     and isinstance(it[1], ast.For)]
-            ok = any(
-                au.is_name(lp.iter, kids[0].value.id) and any(
-                    au.call_name(c) == 'incref' and c.args and au.is_name(
-                        c.args[0], lp.target.id)
-                    for c in au.calls_in(lp))
-                for lp in loops if isinstance(kids[0].value, ast.Name)
-                and isinstance(lp.target, ast.Name))
-            missing = [] if ok else ['*' + au.src(kids[0].value)]
-        else:
-            missing = [au.src(k) for k in kids
-                       if not (isinstance(k, ast.Name) and k.id in got)]
-        if missing:
-            R.violation(
-                'R-PAIR', 'edge-without-ref', q, 'incref',
-                f'a new node storing the edges {[au.src(k) for k in kids]} '
-                f'is inserted without incref of {missing}: the children '
-                'can be collected while the parent is alive',
-                unit=f.unit.rel, line=store.lineno, path=pa.describe(path))
-        else:
-            R.holds('R-PAIR', q, 'insert of a node is followed by incref '
-                    'of each child')
-        # the new node starts with count zero
-        refs = [sub_store(s, '_ref') for s in stmt_items(path)]
-        refs = [r for r in refs if r]
-        if not any(au.const_int(v) == 0 for k, v in refs):
-            R.violation(
-                'R-PAIR', 'initial-count', q, '_ref',
-                'a new node does not start with reference count 0',
-                unit=f.unit.rel, line=store.lineno)
-    R.floor(f'R-PAIR insert paths of {q}', n, 1)
+    """A new node starts with count zero and takes one reference on each
+    successor: part of the find_or_add model."""
+    from . import models
+    models.find_or_add_model(P, R, q.rsplit('.', 1)[0])
 
 
 def pair_counters(P, R, cls='dd.bdd.BDD'):
